@@ -51,7 +51,10 @@ use crate::index::mem_wal::update_mem_wal_index_in_indices_list;
 use crate::utils::temporal::timestamp_to_nanos;
 use deepsize::DeepSizeOf;
 use lance_core::{datatypes::Schema, Error, Result};
-use lance_file::{datatypes::Fields, version::LanceFileVersion};
+use lance_file::{
+    datatypes::{Fields, FieldsWithMeta},
+    version::LanceFileVersion,
+};
 use lance_index::mem_wal::MemWal;
 use lance_index::{frag_reuse::FRAG_REUSE_INDEX_NAME, is_system_index};
 use lance_io::object_store::ObjectStore;
@@ -2776,7 +2779,7 @@ impl TryFrom<pb::Transaction> for Transaction {
             Some(pb::transaction::Operation::Overwrite(pb::transaction::Overwrite {
                 fragments,
                 schema,
-                schema_metadata: _schema_metadata, // TODO: handle metadata
+                schema_metadata,
                 config_upsert_values,
                 initial_bases,
             })) => {
@@ -2791,7 +2794,10 @@ impl TryFrom<pb::Transaction> for Transaction {
                         .into_iter()
                         .map(Fragment::try_from)
                         .collect::<Result<Vec<_>>>()?,
-                    schema: Schema::from(&Fields(schema)),
+                    schema: Schema::from(FieldsWithMeta {
+                        fields: Fields(schema),
+                        metadata: schema_metadata,
+                    }),
                     config_upsert_values: config_upsert_option,
                     initial_bases: if initial_bases.is_empty() {
                         None
@@ -2853,13 +2859,16 @@ impl TryFrom<pb::Transaction> for Transaction {
             Some(pb::transaction::Operation::Merge(pb::transaction::Merge {
                 fragments,
                 schema,
-                schema_metadata: _schema_metadata, // TODO: handle metadata
+                schema_metadata,
             })) => Operation::Merge {
                 fragments: fragments
                     .into_iter()
                     .map(Fragment::try_from)
                     .collect::<Result<Vec<_>>>()?,
-                schema: Schema::from(&Fields(schema)),
+                schema: Schema::from(FieldsWithMeta {
+                    fields: Fields(schema),
+                    metadata: schema_metadata,
+                }),
             },
             Some(pb::transaction::Operation::Restore(pb::transaction::Restore { version })) => {
                 Operation::Restore { version }
@@ -3136,7 +3145,7 @@ impl From<&Transaction> for pb::Transaction {
                 pb::transaction::Operation::Overwrite(pb::transaction::Overwrite {
                     fragments: fragments.iter().map(pb::DataFragment::from).collect(),
                     schema: Fields::from(schema).0,
-                    schema_metadata: Default::default(), // TODO: handle metadata
+                    schema_metadata: FieldsWithMeta::from(schema).metadata,
                     config_upsert_values: config_upsert_values
                         .clone()
                         .unwrap_or(Default::default()),
@@ -3186,7 +3195,7 @@ impl From<&Transaction> for pb::Transaction {
                 pb::transaction::Operation::Merge(pb::transaction::Merge {
                     fragments: fragments.iter().map(pb::DataFragment::from).collect(),
                     schema: Fields::from(schema).0,
-                    schema_metadata: Default::default(), // TODO: handle metadata
+                    schema_metadata: FieldsWithMeta::from(schema).metadata,
                 })
             }
             Operation::Restore { version } => {
